@@ -29,6 +29,7 @@ func init() {
 }
 
 func runC02(c *an.Ctx) {
+	r7DisruptiveInterrupts(c)
 	evalFn := c.Fn("R1", "internal/corazawaf.(*RuleGroup).Eval")
 	if evalFn == nil {
 		return
